@@ -217,7 +217,7 @@ def run_unit(unit, repo, workdir, logdir, timeout_s=600):
         res["status"], res["why"] = "undecided", "rustc/verus error: " + first_error(err)
         return res
     if real or res["errors"] > 0:
-        msgs = error_blocks(err, info["line_map"])
+        msgs = error_blocks(err, info["line_map"], text)
         if any("rlimit" in m["desc"] or "timed out" in m["desc"] for m in msgs) and not any(
                 "not satisfied" in m["desc"] or "failed" in m["desc"] or "overflow" in m["desc"] for m in msgs):
             res["status"], res["why"] = "undecided", "solver resource limit: " + "; ".join(m["desc"] for m in msgs[:2])
@@ -241,8 +241,9 @@ def first_error(err):
     return m.group(0)[:300] if m else err[-300:]
 
 
-def error_blocks(err, line_map):
+def error_blocks(err, line_map, text=""):
     res = []
+    tlines = text.split("\n")
     for m in re.finditer(r"error: ([^\n]+)\n\s*--> ([^\n:]+):(\d+):(\d+)\n(?:[^\n]*\n){0,3}", err):
         msg, _, line = m.group(1), m.group(2), int(m.group(3))
         fn = "?"
@@ -256,8 +257,13 @@ def error_blocks(err, line_map):
             if mm:
                 code = mm.group(1).strip()
         if fn == "?":
-            mm = re.search(r"fn (\w+)", code)
-            if mm:
-                fn = mm.group(1)
+            # nearest preceding `fn name` in the generated text (hand-written lemmas, probes)
+            k = min(line, len(tlines)) - 1
+            while k >= 0:
+                mm = re.search(r"\bfn (\w+)", tlines[k])
+                if mm:
+                    fn = mm.group(1)
+                    break
+                k -= 1
         res.append({"desc": "verus.%s: %s: `%s`" % (fn, msg, code[:120]), "loc": "generated line %d" % line, "fn": fn})
     return res
